@@ -19,6 +19,15 @@ does with a single opportunity - in particular declining it behind a guard - is 
                of model.functions before the application - that the model no longer defines: such a model is
                damaged (a name needed for serialisation into a self-contained model is gone). Judged in every
                graph, including the bodies of functions that are not reachable from the main graph.
+  defined      no pass result contains a use (node input at any depth, graph output) of a value that is not defined
+               in its graph or an enclosing one (input, initializer, node output) when every use was defined before:
+               the definition the serialised name refers to is gone (use-def links / names needed for serialisation).
+               Models carry const_value HINTS on graph inputs and node outputs that are not initializers.
+  facets       once a pass that reads or writes annotations (ShapeInferencePass, IdentityEliminationPass; others
+               sometimes) has settled, ONE annotation facet of a node output (type / shape / one dimension / both)
+               is erased and the pass applied again: its only effect is then about that facet (e.g. inference
+               writes back a type and nothing else) and the flag is judged on it alone. gen_exec models also get
+               values of unknown rank (Reshape to a runtime shape) and sequence / optional values.
   sessions     ONE pass (or composition) instance is applied again and again: to several models in turn (one of
                them a twin of another whose functions have the same identifiers but other bodies) and to the same
                model after edits; every application is judged on the clauses above, and a model on which the
@@ -47,7 +56,10 @@ RULE = ("a case = (generated model with pass bait: Identity/Constant nodes, dupl
         "function body - single items at the pass's fixpoint are stratified over these scope classes), "
         "inner scopes whose values share a name with a value of an enclosing graph, model-local functions calling "
         "each other (acyclic) from their bodies and nested graphs with some functions not reachable from the main "
-        "graph) x one built-in pass (all 19, "
+        "graph, const_value hints on graph inputs / node outputs that are not initializers (any scope); checker-valid "
+        "gen_exec models additionally with values of unknown rank and sequence / optional values, annotated fully, "
+        "not at all or without a type; at the fixpoint of a pass single annotation facets (type / shape / one dim / "
+        "both) of node outputs are erased and the pass re-applied) x one built-in pass (all 19, "
         "plain or under functionalize(), analysis passes included) or a Sequential/PassManager composition "
         "(members and/or the whole composition under functionalize()), or a SESSION: one pass/composition instance "
         "applied 4-8 times to up to three models in turn (a model, its twin with other function bodies, an "
@@ -65,6 +77,11 @@ ASSUMPTIONS = [
     "a node whose (domain, op_type, overload) is a key of model.functions is a call to that model-local function",
     "passes are deterministic: a model on which an instance reported no modification (and changed nothing) is still a "
     "fixpoint of that instance later, whatever the instance was applied to in between",
+    "a const_value on a value that is not registered in graph.initializers is a hint (Value.const_value: 'ignored during "
+    "serialization'): the value keeps its role (runtime graph input / computed value) and must stay defined",
+    "a used value WITHOUT a name losing its definition is report-only (ONNX reads an empty name as 'absent'; RemoveUnusedNodesPass "
+    "trims trailing unnamed node outputs, also a returned one, when names were cleared after construction)",
+    "which type a pass writes on a value is not judged (ShapeInferencePass gives an untyped sequence/optional value a tensor type: not a clause of the statement)",
     "a reused instance behaving differently from a fresh instance with the same parameters is report-only (the statement "
     "only promises the clauses above for every application)",
 ]
@@ -103,6 +120,8 @@ PASS_FACTORIES = {
     "TopologicalSortPass": lambda r: P.TopologicalSortPass(),
 }
 ANALYSIS = {"CheckerPass", "ShapeInferencePass"}
+# passes that read or write the type / shape annotations of values (annotation facets are erased at their fixpoint)
+ANNOTATION_PASSES = {"ShapeInferencePass", "IdentityEliminationPass"}
 
 
 def plan(tier: str) -> dict:
@@ -127,7 +146,15 @@ def plan(tier: str) -> dict:
                    "at_fixpoint_item:fncall": 60 if quick else 1200,
                    "session_applications": 600 if quick else 12000,
                    "session_returns_to_settled_model_after_other_model": 60 if quick else 1200,
-                   "session_twin_applications": 100 if quick else 2000})
+                   "session_twin_applications": 100 if quick else 2000,
+                   # the used-but-undefined clause was decided, on models with a const_value hint on a used plain input
+                   "defined_judged": 1000 if quick else 20000,
+                   "models_with_bait:const_hint_on_used_input": 100 if quick else 2000,
+                   "at_fixpoint_item:consthint": 30 if quick else 600,
+                   # single annotation facets at the fixpoint; the pass had an effect that was about a TYPE alone
+                   "facets_applied": 100 if quick else 2000,
+                   "facet_inference_succeeded": 25 if quick else 500,
+                   "facet_effect:type": 6 if quick else 120})
     return {"cases": 3000 if quick else 60000, "shards": 16, "budget_s": 40 if quick else 560,
             "floors": floors, "min_nontrivial": 100}
 
@@ -392,18 +419,238 @@ def plant_name_clash(g, planted, gen: gen_ir.IRGen) -> int:
     return done
 
 
-ITEM_KINDS = ("identity", "dup", "constant", "unused", "optout", "dupinit", "inout", "disorder", "fncall", "callfn", "uncall")
+# ---- role / payload: const_value hints on values that are not initializers -----------------------------
+_HINT_NP = {ir.DataType.FLOAT: np.float32, ir.DataType.DOUBLE: np.float64, ir.DataType.INT64: np.int64,
+            ir.DataType.INT32: np.int32, ir.DataType.BOOL: np.bool_}
+
+
+def _hint_tensor(v, rng):
+    """a tensor that fits what the value declares (element type, static dims) - what an analysis that
+    traced or folded the value would attach to it"""
+    dt = v.dtype if (isinstance(v.type, ir.TensorType) and v.dtype in _HINT_NP) else ir.DataType.FLOAT
+    dims = [2]
+    if v.shape is not None and all(isinstance(d, int) for d in v.shape):
+        d = [int(x) for x in v.shape]
+        if int(np.prod(d)) <= 64 if d else True:
+            dims = d
+    n = int(np.prod(dims)) if dims else 1
+    arr = np.array([rng.randint(0, 3) for _ in range(n)]).astype(_HINT_NP[dt]).reshape(dims)
+    return ir.tensor(arr, name=v.name if rng.random() < 0.7 else rng.choice([None, "vf_hint"]))
+
+
+def _is_registered(g, v) -> bool:
+    return bool(v.name) and v.name in g.initializers and g.initializers[v.name] is v
+
+
+def plant_const_hints_in(g, rng, features: set, cls: str, p_node_output=0.3) -> int:
+    """Give 1-2 graph inputs of g that are NOT registered initializers (and, sometimes, a node output) a
+    const_value. Value.const_value documents that it is then ignored by serialisation: the role of the
+    value (runtime input / computed value) is unchanged, only the payload says 'constant'."""
+    done = 0
+    plain = [v for v in g.inputs if v.const_value is None and not _is_registered(g, v)]
+    rng.shuffle(plain)
+    for v in plain[: rng.randint(1, 2)]:
+        v.const_value = _hint_tensor(v, rng)
+        done += 1
+        features.add("bait:const_hint_on_input")
+        features.add("bait:const_hint_on_input@" + cls)
+        if v.uses():
+            features.add("bait:const_hint_on_used_input")
+    outs = [o for n in g for o in n.outputs if o.const_value is None and o.name]
+    if outs and (not done or rng.random() < p_node_output):
+        o = rng.choice(outs)
+        o.const_value = _hint_tensor(o, rng)
+        done += 1
+        features.add("bait:const_hint_on_node_output")
+    return done
+
+
+def plant_const_hints(model, rng, features: set) -> int:
+    """const_value hints in 1-3 graphs of the model (main graph, nested graphs, function bodies)"""
+    cls_of = scope_classes(model)
+    gs = [g for g in all_graphs(model) if any(v.const_value is None and not _is_registered(g, v) for v in g.inputs)]
+    if not gs:
+        return 0
+    rng.shuffle(gs)
+    main_first = [g for g in gs if g is model.graph and rng.random() < 0.7]
+    done = 0
+    for g in (main_first + [g for g in gs if g not in main_first])[: rng.randint(1, 3)]:
+        done += plant_const_hints_in(g, rng, features, cls_of.get(id(g), "main"))
+    return done
+
+
+def undefined_uses(model) -> list:
+    """(scope class, kind of use, user, value name) for every value that a node of the model consumes or a graph
+    returns and that is defined nowhere it could come from: not an input, not an initializer and not a node
+    output of the graph itself or of a graph enclosing it. Such a model has lost a definition its
+    serialisation needs (the name is dangling in the proto) and its use-def links are not consistent."""
+    cls_of = scope_classes(model)
+    out, seen = [], set()
+
+    def walk(g, visible):
+        if id(g) in seen:
+            return
+        seen.add(id(g))
+        cls = cls_of.get(id(g), "main")
+        vis = visible | {id(v) for v in g.inputs} | {id(v) for v in g.initializers.values()}
+        for n in g:
+            vis |= {id(o) for o in n.outputs}
+        for n in g:
+            for v in n.inputs:
+                if v is not None and id(v) not in vis:
+                    out.append((cls, "node-input", n.name or n.op_type, v.name))
+            for a in n.attributes.values():
+                if isinstance(a, ir.Attr) and not a.is_ref():
+                    subs = [a.value] if a.type == ir.AttributeType.GRAPH else (list(a.value) if a.type == ir.AttributeType.GRAPHS else [])
+                    for sg in subs:
+                        walk(sg, vis)
+        for v in g.outputs:
+            if id(v) not in vis:
+                out.append((cls, "graph-output", g.name, v.name))
+
+    walk(model.graph, set())
+    for f in model.functions.values():
+        walk(f.graph, set())
+    return out
+
+
+def judge_defined(ctx, undefined_before, out, sig, where, viol) -> bool:
+    """the used-but-undefined clause for ONE pass result; True = a violation was reported"""
+    if undefined_before:
+        ctx.count("defined_precondition_broken")
+        return False
+    ctx.count("defined_judged")
+    u = undefined_uses(out)
+    if any(not name for _, _, _, name in u):
+        # ONNX reads an empty name as 'no value here' and RemoveUnusedNodesPass trims trailing node outputs
+        # without a name (also one that a graph returns): whether an UNNAMED used value must keep its
+        # definition is not said by the statement (the names clause is likewise judged on named values only)
+        ctx.count("report_only_unnamed_used_value_lost_its_definition:" + sig)
+        u = [x for x in u if x[3]]
+    if not u:
+        return False
+    cls, use, user, name = u[0]
+    viol(f"used-but-undefined|{sig}|{use}@{cls}",
+         f"{where}: every used value was defined before; now {len(u)} use(s) of a value that is neither an input, an "
+         f"initializer nor a node output of its graph or an enclosing graph, e.g. {use} {name!r} of {user!r} in a {cls} graph"[:1200])
+    return True
+
+
+# ---- annotations: values whose type / shape inference can, or cannot, supply ------------------------------
+FACETS = ("type", "type", "shape", "dim", "both")
+
+
+def _fresh_names(model, stem, k):
+    used = set()
+    for g in all_graphs(model):
+        used |= {v.name for v in g.inputs} | set(g.initializers) | {o.name for n in g for o in n.outputs} | {n.name for n in g}
+    out, i = [], 0
+    while len(out) < k:
+        nm = f"{stem}{i}"
+        i += 1
+        if nm not in used:
+            out.append(nm)
+    return out
+
+
+def plant_partially_inferable(model, rng, features: set) -> None:
+    """Appended to the MAIN graph of a checker-valid model, through the public API, keeping it checker-valid:
+    values about which inference can learn a type and NOTHING else (a Reshape whose target shape is a runtime
+    input of unknown length: the rank of the result is unknown), and values whose type is not a tensor type
+    (sequence / optional). The new values are annotated completely, not at all, or with exactly one facet missing."""
+    g = model.graph
+    ver = g.opset_imports.get("", 0)
+    srcs = [v for v in list(g.inputs) + [o for n in g for o in n.outputs]
+            if isinstance(v.type, ir.TensorType) and v.shape is not None and len(v.shape) >= 1
+            and all(isinstance(d, int) for d in v.shape) and v.name and v.dtype in _HINT_NP]
+    if not srcs or ver < 13:
+        return
+    kinds = ["reshape", "reshape"] + (["seq"] if ver >= 13 else []) + (["opt"] if ver >= 18 else [])
+    for kind in rng.sample(kinds, rng.randint(1, 2)):
+        x = rng.choice(srcs)
+        elem = ir.TensorType(x.dtype)
+        q_name, z_name, s_name, n1, n2, c_name, c_out = _fresh_names(model, "vfa_", 7)
+        how = rng.choice(["full", "full", "none", "no_type"])   # the annotation of the new inner value q
+        if kind == "reshape":
+            s = ir.Value(name=s_name, type=ir.TensorType(ir.DataType.INT64), shape=ir.Shape([rng.choice(["vf_n", None])]))
+            g.inputs.append(s)
+            a = ir.Node("", "Reshape", [x, s], outputs=[ir.Value(name=q_name)], name=n1)
+            b = ir.Node("", rng.choice(["Identity", "Abs"]), [a.outputs[0]], outputs=[ir.Value(name=z_name)], name=n2)
+            q_type, q_shape, z_shape = elem, None, ir.Shape(["vf_a", "vf_b"][: rng.randint(1, 2)])
+            g.extend([a, b])
+            features.add("bait:unknown_rank_value")
+        elif kind == "seq":
+            a = ir.Node("", "SequenceConstruct", [x] * rng.randint(1, 2), outputs=[ir.Value(name=q_name)], name=n1)
+            c = ir.Node("", "Constant", [], [ir.AttrInt64("value_int", 0)], name=c_name,
+                        outputs=[ir.Value(name=c_out, type=ir.TensorType(ir.DataType.INT64), shape=ir.Shape([]))])
+            b = ir.Node("", "SequenceAt", [a.outputs[0], c.outputs[0]], outputs=[ir.Value(name=z_name)], name=n2)
+            q_type, q_shape, z_shape = ir.SequenceType(elem), ir.Shape(list(x.shape)), ir.Shape(list(x.shape))
+            g.extend([a, c, b])
+            features.add("bait:sequence_value")
+        else:
+            a = ir.Node("", "Optional", [x], outputs=[ir.Value(name=q_name)], name=n1)
+            b = ir.Node("", "OptionalGetElement", [a.outputs[0]], outputs=[ir.Value(name=z_name)], name=n2)
+            q_type, q_shape, z_shape = ir.OptionalType(elem), ir.Shape(list(x.shape)), ir.Shape(list(x.shape))
+            g.extend([a, b])
+            features.add("bait:optional_value")
+        q, z = a.outputs[0], b.outputs[0]
+        z.type, z.shape = elem, z_shape          # a graph output declares its type (and a shape field)
+        g.outputs.append(z)
+        if how in ("full", "no_type"):
+            q.shape = q_shape
+        if how == "full":
+            q.type = q_type
+        features.add("bait:partially_inferable_inner_annotation=" + how)
+
+
+def _facet_candidates(model) -> list:
+    """(scope class, value, is a graph output) for the node outputs that carry an annotation"""
+    cls_of = scope_classes(model)
+    out = []
+    for g in all_graphs(model):
+        returned = {id(v) for v in g.outputs}
+        for n in g:
+            for o in n.outputs:
+                if o.name and (o.type is not None or o.shape is not None):
+                    out.append((cls_of.get(id(g), "main"), o, id(o) in returned))
+    return out
+
+
+def _facet_applicable(v, facet, returned) -> bool:
+    if facet == "type":
+        return v.type is not None and not returned
+    if facet == "shape":
+        return v.shape is not None and not returned
+    if facet == "dim":
+        return v.shape is not None and len(v.shape) >= 1 and any(isinstance(d, int) for d in v.shape)
+    return v.type is not None and v.shape is not None and not returned
+
+
+def _erase_facet(v, facet, rng) -> None:
+    if facet in ("type", "both"):
+        v.type = None
+    if facet in ("shape", "both"):
+        v.shape = None
+    if facet == "dim":
+        dims = list(v.shape)
+        i = rng.choice([k for k, d in enumerate(dims) if isinstance(d, int)])
+        dims[i] = rng.choice([None, "vf_dim"])
+        v.shape = ir.Shape(dims)
+
+
+ITEM_KINDS = ("identity","dup", "constant", "unused", "optout", "dupinit", "inout", "disorder", "fncall", "callfn", "uncall", "consthint")
 # the kind of planted pattern each pass is about (used when ONE item is planted at the pass's fixpoint)
 RELEVANT_ITEMS = {
     "IdentityEliminationPass": ("identity",),
     "CommonSubexpressionEliminationPass": ("dup", "constant"),
     "LiftConstantsToInitializersPass": ("constant",),
     "RemoveUnusedNodesPass": ("unused", "optout"),
-    "DeduplicateInitializersPass": ("dupinit",),
-    "DeduplicateHashedInitializersPass": ("dupinit",),
+    "DeduplicateInitializersPass": ("dupinit", "dupinit", "consthint"),
+    "DeduplicateHashedInitializersPass": ("dupinit", "dupinit", "consthint"),
     "OutputFixPass": ("inout", "identity"),
-    "AddInitializersToInputsPass": ("dupinit",),
-    "RemoveInitializersFromInputsPass": ("dupinit",),
+    "AddInitializersToInputsPass": ("dupinit", "consthint"),
+    "RemoveInitializersFromInputsPass": ("dupinit", "consthint"),
+    "LiftSubgraphInitializersToMainGraphPass": ("dupinit", "consthint"),
     "TopologicalSortPass": ("disorder",),
     "InlinePass": ("fncall", "fncall", "callfn", "uncall"),
     "RemoveUnusedFunctionsPass": ("fncall", "fncall", "callfn", "uncall"),
@@ -593,6 +840,11 @@ def plant_item(model, g, vis, gen: gen_ir.IRGen, kind: str, planted: list) -> No
             n.graph.remove(n, safe=True)
             vis[:] = [v for v in vis if not any(v is o for o in n.outputs)]
             gen.features.add("bait:function_call_removed")
+    elif kind == "consthint":
+        # role / payload disagreement: a value of g that is NOT an initializer carries a const_value (a hint,
+        # ignored by serialisation) - preferably a graph input of g, which stays a genuine runtime input
+        if plant_const_hints_in(g, rng, gen.features, scope_classes(model).get(id(g), "main")) == 0:
+            gen.features.add("bait:const_hint_no_candidate")
     else:
         raise ValueError(kind)
 
@@ -677,24 +929,40 @@ class _ExecFeatures:
         self.features = set(features)
 
 
-def build(ctx, case, force_ir=False, fn_rich=False):
+def build(ctx, case, force_ir=False, fn_rich=False, p_exec=0.3):
     """force_ir: a gen_ir model whatever the draw says (the harness can edit those); fn_rich: more
-    model-local functions calling each other (workload of the passes that are about functions)."""
+    model-local functions calling each other (workload of the passes that are about functions);
+    p_exec: how often the model is a checker-valid one from gen_exec."""
     rng = ctx.rng(case)
-    if rng.random() < 0.3 and not force_ir:
+    if rng.random() < p_exec and not force_ir:
         # checker-valid, executable models (vfpy/gen_exec.py): the ONNX checker and shape inference
         # succeed on these, so the success paths of the analysis passes are exercised as well
         from vfpy import gen_exec
 
         model, info = gen_exec.gen_model(rng, size=rng.choice([4, 8, 12]))
         ctx.count("models_from_gen_exec")
-        return model, _ExecFeatures(info.get("features", ())), False
+        feats = _ExecFeatures(info.get("features", ()))
+        extra = set()
+        hrng = ctx.rng(case, "annotations")
+        if hrng.random() < 0.5:
+            # values about which inference learns a type and nothing else; sequence / optional values
+            plant_partially_inferable(model, hrng, extra)
+        if hrng.random() < 0.35:
+            plant_const_hints(model, hrng, extra)
+        for f in sorted(extra):
+            ctx.count("models_with_" + f)
+        feats.features |= extra
+        return model, feats, False
     ctx.count("models_from_gen_ir")
     gen = gen_ir.IRGen(rng, max_depth=rng.choice([0, 1, 2]), ir_versions=(9, 10, 11))
     model = gen.model()
     grow_functions(model, gen, fn_rich)
     gen_ir.uniquify_names(model)
     messy_names = bait(model, gen)
+    hrng = ctx.rng(case, "annotations")
+    if hrng.random() < 0.35:
+        # role / payload disagreement: graph inputs (any scope) that carry a const_value without being initializers
+        plant_const_hints(model, hrng, gen.features)
     gen.features |= function_reach_features(model)
     for f in sorted(x for x in gen.features if x.startswith("bait:")):
         ctx.count("models_with_" + f)
@@ -871,6 +1139,7 @@ def judge_pass(ctx, model, pname, rng, case, fault_kind=None, messy_names=False,
     pre = snapshot.snapshot(w)
     unordered0 = unordered_graphs(model)
     unnamed0 = unnamed_used(model)
+    undefined0 = undefined_uses(model)
     keys0 = set(model.functions)
     nbound = sum(1 for g in all_graphs(model) for _ in g) + len(w.values) + len(model.functions) + 2
     exc = None
@@ -934,6 +1203,9 @@ def judge_pass(ctx, model, pname, rng, case, fault_kind=None, messy_names=False,
     # calls
     if judge_calls(ctx, keys0, out, pname, f"after {variant} {pname}", viol):
         return True
+    # every used value is still defined
+    if judge_defined(ctx, undefined0, out, pname, f"after {variant} {pname}", viol):
+        return True
     # flag
     b1, e1 = try_ser(out)
     if b0 is not None and b1 is None:
@@ -992,6 +1264,11 @@ def judge_pass(ctx, model, pname, rng, case, fault_kind=None, messy_names=False,
         if not settled:
             viol(f"no-fixpoint|{pname}", f"{pname} still reports modified=True after {rounds} rounds (bound {nbound})")
             return True
+        if not errored and not messy_names and (pname in ANNOTATION_PASSES or rng.random() < 0.1):
+            violated, cur, usable = facets_at_fixpoint(ctx, p, pname, variant, cur, rng, viol)
+            if violated:
+                return True
+            errored = not usable
         if not errored and isinstance(gen, gen_ir.IRGen) and not messy_names:
             if items_at_fixpoint(ctx, p, pname, variant, cur, gen, viol):
                 return True
@@ -1080,6 +1357,7 @@ def one_item_at_fixpoint(ctx, p, pname, variant, model, g, vis, cls, gen, viol):
         ctx.count("at_fixpoint_not_serialisable")
         return "skipped", model, None
     unordered0 = unordered_graphs(model)
+    undefined0 = undefined_uses(model)
     keys0 = set(model.functions)
     try:
         res = p(model)
@@ -1103,6 +1381,8 @@ def one_item_at_fixpoint(ctx, p, pname, variant, model, g, vis, cls, gen, viol):
         return "violation", model, None
     if judge_calls(ctx, keys0, res.model, pname, f"after {variant} {pname} (one '{kind}' item in a {cls} graph at the fixpoint)", viol):
         return "violation", model, None
+    if judge_defined(ctx, undefined0, res.model, pname, f"after {variant} {pname} (one '{kind}' item in a {cls} graph at the fixpoint)", viol):
+        return "violation", model, None
     b1, e1 = try_ser(res.model)
     if b1 is None:
         viol(f"serialisation-broken|{pname}|{type(e1).__name__}@{raise_site(e1)}",
@@ -1122,6 +1402,128 @@ def one_item_at_fixpoint(ctx, p, pname, variant, model, g, vis, cls, gen, viol):
         viol(f"order-broken|{pname}", f"all graphs were topologically ordered before {pname} (one '{kind}' item in a {cls} graph at the fixpoint); some are not after it")
         return "violation", model, None
     return "applied", res.model, b1
+
+
+def _model_bound(model) -> int:
+    gs = all_graphs(model)
+    return sum(1 for x in gs for _ in x) + sum(1 for x in gs for n in x for _ in n.outputs) \
+        + sum(len(x.inputs) + len(x.initializers) for x in gs) + len(model.functions) + 2
+
+
+def facets_at_fixpoint(ctx, p, pname, variant, model, rng, viol):
+    """`model` is at the fixpoint of p. ONE annotation facet - the type, the shape, one dimension, or type and
+    shape - of one node output (sometimes of two or three) is erased, in a graph of a uniformly drawn scope
+    class, and p is applied: the model is then annotated completely except for that facet, so whatever p
+    does (for ShapeInferencePass: writing back exactly what inference can still supply, possibly a type and
+    nothing else) is its ONLY effect, and its flag is judged on that effect alone. p is then iterated back to
+    its fixpoint (same judgement) before the next facet. Returns (violation reported, model, still usable)."""
+    cur = model
+    for _ in range(rng.choice([2, 3, 4])):
+        facet = rng.choice(FACETS)
+        by_cls = {}
+        for cls, v, returned in _facet_candidates(cur):
+            if _facet_applicable(v, facet, returned):
+                by_cls.setdefault(cls, []).append(v)
+        if not by_cls:
+            ctx.count("facet_no_candidate:" + facet)
+            continue
+        cls = rng.choice([c for c in SCOPE_CLASSES if c in by_cls])
+        vs = by_cls[cls]
+        chosen = rng.sample(vs, min(len(vs), 1 if rng.random() < 0.7 else rng.randint(2, 3)))
+        non_tensor = any(v.type is not None and not isinstance(v.type, ir.TensorType) for v in chosen)
+        for v in chosen:
+            _erase_facet(v, facet, rng)
+        what = f"'{facet}' annotation of {len(chosen) if len(chosen) > 1 else 'one'} value(s) in a {cls} graph erased at the fixpoint"
+        if invariants.check_model(cur):
+            ctx.count("facet_precondition_broken")
+            return False, cur, False
+        b0, _ = try_ser(cur)
+        if b0 is None:
+            ctx.count("facet_not_serialisable")
+            return False, cur, False
+        unordered0 = unordered_graphs(cur)
+        undefined0 = undefined_uses(cur)
+        keys0 = set(cur.functions)
+        with Boundary(None) as boundary:
+            try:
+                res = p(cur)
+            except Exception as e:  # noqa: BLE001
+                if _identity_pass_error_in_chain(e):
+                    viol(f"identity|{pname}|{variant}|PassError", f"{variant} {pname} ({what}): {e}"[:800])
+                    return True, cur, False
+                ctx.count("facet_pass_error:" + pname)
+                return False, cur, False
+        ctx.count("facets_applied")
+        ctx.count("facet:" + facet)
+        ctx.count("facet_scope:" + cls)
+        if non_tensor:
+            ctx.count("facet_on_non_tensor_value")
+        if pname == "ShapeInferencePass":
+            ctx.count("facet_inference_failed" if boundary.inference_failed() else "facet_inference_succeeded")
+        if (res.model is cur) != bool(p.in_place):
+            viol(f"identity|{pname}", f"{pname}.in_place={p.in_place} but result.model is input: {res.model is cur} ({what})")
+            return True, cur, False
+        out = res.model
+        bad = invariants.check_model(out)
+        if bad:
+            viol(f"links|{pname}|{'+'.join(sorted({c for c, _ in bad}))}", f"after {pname} ({what}): " + "; ".join(m for _, m in bad[:5]))
+            return True, cur, False
+        if judge_calls(ctx, keys0, out, pname, f"after {variant} {pname} ({what})", viol):
+            return True, cur, False
+        if judge_defined(ctx, undefined0, out, pname, f"after {variant} {pname} ({what})", viol):
+            return True, cur, False
+        b1, e1 = try_ser(out)
+        if b1 is None:
+            viol(f"serialisation-broken|{pname}|{type(e1).__name__}@{raise_site(e1)}",
+                 f"model serialised before {pname} ({what}) but raises after: {e1!r}"[:1200])
+            return True, cur, False
+        if b0 != b1:
+            ctx.count("facet_effect:" + facet)   # the pass had an effect, and it was about this facet alone
+        if not res.modified:
+            ctx.count("flag_false_judged")
+            ctx.count("facet_flag_false_judged")
+            if b0 != b1:
+                d = _first_proto_diff(b0, b1)
+                viol(f"modified-false-but-changed|{pname}|{d[0]}",
+                     f"{pname} at its fixpoint with the {what} reported modified=False but the serialised model changed: {d[1]}")
+                return True, cur, False
+        else:
+            ctx.count("facet_modified_true:" + facet)
+        if not unordered0 and unordered_graphs(out):
+            viol(f"order-broken|{pname}", f"all graphs were topologically ordered before {pname} ({what}); some are not after it")
+            return True, cur, False
+        cur = out
+        if not res.modified:
+            continue
+        # back to the fixpoint
+        b, nbound, rounds, settled = b1, _model_bound(cur), 0, False
+        while rounds < nbound:
+            rounds += 1
+            keys_r = set(cur.functions)
+            try:
+                r = p(cur)
+            except Exception as e:  # noqa: BLE001
+                if _identity_pass_error_in_chain(e):
+                    viol(f"identity|{pname}|{variant}|PassError", f"{variant} {pname} re-settling ({what}): {e}"[:800])
+                    return True, cur, False
+                ctx.count("fixpoint_pass_error:" + pname)
+                return False, cur, False
+            if judge_calls(ctx, keys_r, r.model, pname, f"{variant} {pname} re-settling ({what})", viol):
+                return True, cur, False
+            nb, _ = try_ser(r.model)
+            if not r.modified:
+                if b is not None and nb is not None and nb != b:
+                    d = _first_proto_diff(b, nb)
+                    viol(f"modified-false-but-changed|{pname}|{d[0]}", f"{pname} (re-settling, {what}) reported modified=False but changed: {d[1]}")
+                    return True, cur, False
+                cur, settled = r.model, True
+                break
+            cur, b = r.model, nb
+        ctx.count("facet_resettle_rounds", rounds)
+        if not settled:
+            viol(f"no-fixpoint|{pname}", f"{pname} still reports modified=True after {rounds} rounds (bound {nbound}) following the {what}")
+            return True, cur, False
+    return False, cur, True
 
 
 def _is_tensor_name_alignment(w, entry) -> bool:
@@ -1175,7 +1577,8 @@ def run_case(ctx, case):
     else:
         pname = names[case % len(names)] if rng.random() < 0.7 else rng.choice(names)
         fn_rich = _fn_rich(rng, [pname])
-    model, gen, messy = build(ctx, case, fn_rich=fn_rich)
+    # inference succeeds on checker-valid models only: the pass that is about annotations gets them most of the time
+    model, gen, messy = build(ctx, case, fn_rich=fn_rich, p_exec=0.65 if (pname == "ShapeInferencePass" and fk is None) else 0.3)
     problems = iso_ir.well_scoped(model)
     if problems and not messy:
         ctx.count("skipped_not_well_scoped")
@@ -1374,6 +1777,7 @@ def judge_session(ctx, case, rng):
         keys0 = set(model.functions)
         unordered0 = unordered_graphs(model)
         unnamed0 = unnamed_used(model)
+        undefined0 = undefined_uses(model)
         compare_when = rng.choice(["before", "after"]) if (fresh is not None and b0 is not None and rng.random() < 0.4) else None
         if compare_when == "before":
             _compare_with_fresh(ctx, p, fresh, b0, sig)
@@ -1405,6 +1809,8 @@ def judge_session(ctx, case, rng):
             viol(f"links|{sig}|{'+'.join(sorted({c for c, _ in bad}))}", f"{where}: " + "; ".join(m for _, m in bad[:5]))
             return True, key, first.gen, first.model
         if judge_calls(ctx, keys0, out, sig, where, viol):
+            return True, key, first.gen, first.model
+        if judge_defined(ctx, undefined0, out, sig, where, viol):
             return True, key, first.gen, first.model
         b1, e1 = try_ser(out)
         if b0 is not None and b1 is None:
@@ -1491,6 +1897,7 @@ def judge_composition(ctx, model, seq, rng, case):
     for round_ in (1, 2):  # the second application runs at (or near) the fixpoint
         b0, _ = try_ser(cur)
         keys0 = set(cur.functions)
+        undefined0 = undefined_uses(cur)
         try:
             res = comp(cur)
         except Exception as e:  # noqa: BLE001
@@ -1523,6 +1930,9 @@ def judge_composition(ctx, model, seq, rng, case):
             return True
         if judge_calls(ctx, keys0, res.model, "composition", f"round {round_} of {type(comp).__name__}({name})",
                        lambda sig, msg: ctx.violation(sig, msg, rep)):
+            return True
+        if judge_defined(ctx, undefined0, res.model, "composition", f"round {round_} of {type(comp).__name__}({name})",
+                         lambda sig, msg: ctx.violation(sig, msg, rep)):
             return True
         b1, _ = try_ser(res.model)
         if not res.modified:
